@@ -197,7 +197,7 @@ def build_win(repo=None, tsan=False):
     r = subprocess.run(["gcc", "-std=gnu99"] + (["-O1", "-g", "-fsanitize=thread"] if tsan else SAN_FLAGS["asan"]) +
                        ["-D_WIN32", "-DNDEBUG", "-w", "-I" + os.path.join(HARNESS, "win"),
                         "-I" + os.path.join(repo, "reproc/include"), "-I" + os.path.join(repo, "reproc/src"), hsrc[0]] + srcs +
-                       ["-Wl,--wrap=calloc", "-lpthread", "-o", os.path.join(tmp, "windrv")], capture_output=True, text=True)
+                       ["-Wl,--wrap=calloc", "-Wl,--wrap=malloc", "-Wl,--wrap=realloc", "-lpthread", "-o", os.path.join(tmp, "windrv")], capture_output=True, text=True)
     if r.returncode != 0:
         shutil.rmtree(tmp, ignore_errors=True)
         raise Infra("windows sources do not compile against the stub header:\n" + r.stderr[-3000:])
